@@ -89,26 +89,32 @@ func New(prop, level string) *Run {
 }
 
 func (r *Run) loadKnown() {
-	b, err := os.ReadFile(filepath.Join(Root(), "known_findings.json"))
-	if err != nil {
-		return
-	}
-	var all []Finding
-	if err := json.Unmarshal(b, &all); err != nil {
-		fmt.Fprintf(os.Stderr, "known_findings.json unreadable: %v\n", err)
-		os.Exit(2)
-	}
-	for _, f := range all {
-		if f.Kind != "known" || f.Property != r.Prop {
+	files := []string{filepath.Join(Root(), "known_findings.json")}
+	more, _ := filepath.Glob(filepath.Join(Root(), "known_findings.d", "*.json"))
+	sort.Strings(more)
+	files = append(files, more...)
+	for _, f := range files {
+		b, err := os.ReadFile(f)
+		if err != nil {
 			continue
 		}
-		re, err := regexp.Compile("^(?:" + f.Match + ")$")
-		if err != nil {
-			fmt.Fprintf(os.Stderr, "known_findings.json: bad match %q: %v\n", f.Match, err)
+		var all []Finding
+		if err := json.Unmarshal(b, &all); err != nil {
+			fmt.Fprintf(os.Stderr, "%s unreadable: %v\n", f, err)
 			os.Exit(2)
 		}
-		r.known = append(r.known, f)
-		r.knownRe = append(r.knownRe, re)
+		for _, f := range all {
+			if f.Kind != "known" || f.Property != r.Prop {
+				continue
+			}
+			re, err := regexp.Compile("^(?:" + f.Match + ")$")
+			if err != nil {
+				fmt.Fprintf(os.Stderr, "known findings: bad match %q: %v\n", f.Match, err)
+				os.Exit(2)
+			}
+			r.known = append(r.known, f)
+			r.knownRe = append(r.knownRe, re)
+		}
 	}
 }
 
